@@ -7,7 +7,7 @@ NET_REPO = _ev.EVENTS_REPO + ["network/network_accept.c", "network/network_conne
 NET_SHIMS = _ev.EVENTS_SHIMS + ["shim_network_read.c", "shim_network_write.c"]
 
 TARGETS = {
-    "h_netio": dict(harness=["h_netio.c"], engine=["vf.c", "mc.c", "fk.c"], shims=NET_SHIMS, repo=NET_REPO),
+    "h_netio": dict(repo_opt="-O0", harness=["h_netio.c"], engine=["vf.c", "mc.c", "fk.c"], shims=NET_SHIMS, repo=NET_REPO),
 }
 
 
